@@ -37,6 +37,9 @@ def apply_op(f, op, val):
     if k == "set":
         g, key = _target(f, op[1], op[2])
         g[key] = val
+    elif k == "setbad":  # a write that must fail (value has no HDF5 equivalent) - and leave no trace
+        g, key = _target(f, op[1], op[2])
+        g[key] = {"bad": object()}
     elif k == "grp":
         g, key = _target(f, op[1], op[2])
         g.create_group(key)
